@@ -84,7 +84,12 @@ POOL = [
     ("<*_proto_ = cyclic*>", lambda s: core.to_value(("obj", [])).addItem(
         "_proto_", _selfproto())),
     ("[1, itself]", lambda s: _selflist()),
+    # an int beyond the range of the host's floats (syntactic forms only:
+    # as a repeat count or size argument of library functions it would
+    # only measure resource exhaustion)
+    ("10^400", lambda s: V.ValueInt(10 ** 400)),
 ]
+FORMS_ONLY = {"10^400"}
 def _selflist():
     lst = core.to_value([1])
     lst.addItem(lst)
@@ -217,7 +222,7 @@ def arg_tuples(nparams, tier):
     """all argument tuples of arity 0..min(3, nparams) (names of pool
     entries); quick restricts arity 3 to the sub-pool; the few functions
     with a fourth parameter get all 4-tuples over a 12-value pool"""
-    names = [n for n, _ in POOL]
+    names = [n for n, _ in POOL if n not in FORMS_ONLY]
     yield ()
     if nparams >= 1:
         for a in names:
